@@ -76,6 +76,7 @@ def run(F, rep, tier):
     date_validity_rule(F, rep)
     offset_rule(F, rep)
     components_rule(F, rep)
+    whole_months_rule(F, rep, tier)
     instants_rule(F, rep)
     # the properties of a date-and-time (time offset, timezone) are those at the value's own date: its time component never reaches the zone-at-today operations (C13's R13.6)
     import callgraph
@@ -541,3 +542,69 @@ def instants_rule(F, rep):
             rep.undecided(rid, key, "no answering path of %s was folded" % fn)
         else:
             rep.ok(rid, key, "%d answering path(s), all from date_time_offset instants" % n)
+
+
+# ======================================================================================================
+# R15.7: the years-and-months duration between two dates is the number of whole months between them
+def whole_months_rule(F, rep, tier):
+    """`to.ym_duration(from)` folded on concrete (year, month, day) triples.  The pinned function reads the six components only through casts, differences and order
+    comparisons, so it is piecewise linear with pieces cut out by the signs of the component differences; the representatives take every sign combination of (year,
+    month, day) differences with several magnitudes each (agreement on them is evidence for that form of function only - stated in the manifest note).  The calendar's answer: with
+    m = 12 * (y1 - y0) + (m1 - m0) counted from `from` = (y0, m0, d0) to `to` = (y1, m1, d1), an incomplete last month is taken off towards zero - m - 1 when
+    to >= from and d1 < d0, m + 1 when to < from and d1 > d0.  A disagreement on a representative is a counterexample by itself."""
+    rid = rep.rule("R15.7", "the years-and-months duration between two dates is the number of whole months between them (ym_duration folded on representative pairs of dates: "
+                            "every sign combination of the year / month / day differences)")
+    names = [n for n in fns_named(F, "ym_duration") if "FeelDate::" in n and "FeelDateTime" not in n]
+    if not names:
+        if fns_named(F, "ym_duration"):
+            rep.undecided(rid, "ym_duration", "no FeelDate::ym_duration; the computation has moved")
+        else:
+            rep.missing_anchor(rid, "FeelDate::ym_duration")
+        return
+    name = names[0]
+    h = F.hir[name]
+    years = [2019, 2020, 2021] if tier == "quick" else [-1, 0, 2019, 2020, 2021, 999999999]
+    months = [1, 2, 12] if tier == "quick" else [1, 2, 6, 11, 12]
+    days = [1, 15, 31] if tier == "quick" else [1, 14, 15, 28, 31]
+    dates = [(y, m, d) for y in years for m in months for d in days]
+
+    def lit3(t):
+        return ("tuple", [("lit", t[0]), ("lit", t[1]), ("lit", t[2])])
+    from hireval import Evaluator, TooManyPaths
+    ev = Evaluator(F, ints=True, max_paths=400)
+    checked = bad = und = 0
+    first_bad = None
+    for to in dates:
+        for frm in dates:
+            try:
+                outs = ev.run_fn(name, [lit3(to), lit3(frm)])
+            except (TooManyPaths, ValueError, KeyError, RecursionError):
+                outs = None
+            v = single(outs) if outs else None
+            got = None
+            if v is not None and v[0] == "call" and len(v[2]) == 1 and v[2][0][0] == "lit" and isinstance(v[2][0][1], int) and v[1].endswith("::new_m"):
+                got = v[2][0][1]
+            elif v is not None and v[0] == "lit" and isinstance(v[1], int):
+                got = v[1]
+            if got is None:
+                und += 1
+                continue
+            m = 12 * (to[0] - frm[0]) + (to[1] - frm[1])
+            if to >= frm and to[2] < frm[2]:
+                m -= 1
+            elif to < frm and to[2] > frm[2]:
+                m += 1
+            checked += 1
+            if got != m:
+                bad += 1
+                if first_bad is None:
+                    first_bad = (frm, to, got, m)
+    if bad:
+        frm, to, got, m = first_bad
+        rep.violation(rid, "ym_duration", "years and months duration(date(%04d-%02d-%02d), date(%04d-%02d-%02d)) folds to %d months, the number of whole months between the dates is %d "
+                      "(%d of %d representative pairs disagree)" % (frm + to + (got, m, bad, checked)), "%s:%s" % (h["file"], h["line"]))
+    elif und or not checked:
+        rep.undecided(rid, "ym_duration", "%d of %d representative pairs do not fold to an integer number of months (the function has a form the folding does not follow)" % (und, und + checked))
+    else:
+        rep.ok(rid, "ym_duration", "%d representative pairs of dates fold to the calendar's number of whole months" % checked)
+    rep.analysed["whole_month_pairs"] = checked
